@@ -314,6 +314,7 @@ func goroutineStates() map[int64]gstate {
 		if i := strings.IndexByte(st, ','); i >= 0 {
 			st = st[:i]
 		}
+		st = strings.TrimSuffix(st, " (scan)") // the collector is scanning its stack: same state otherwise
 		out[id] = gstate{st, rest}
 	}
 	return out
@@ -336,8 +337,10 @@ func anyBusy(states map[int64]gstate, self int64) bool {
 			continue
 		}
 		switch g.status {
-		case "running", "runnable", "sleep":
+		case "running", "runnable", "sleep", "preempted", "copystack":
 			return true
+		case "GC assist wait", "GC assist marking":
+			return true // about to go on as soon as the collector lets it
 		case "syscall":
 			if !strings.Contains(g.frames, "os/signal.signal_recv") {
 				return true
@@ -399,7 +402,13 @@ func (s *Sched) monitor(stop chan struct{}) {
 		if !quiet() {
 			continue
 		}
+		// two more looks, a few milliseconds apart: on a loaded machine a goroutine that is about to run
+		// can be caught between states once
 		time.Sleep(2 * time.Millisecond)
+		if !quiet() {
+			continue
+		}
+		time.Sleep(4 * time.Millisecond)
 		if !quiet() {
 			continue
 		}
